@@ -169,6 +169,9 @@ class SimFile(object):
 
     def write(self, data):
         self._check()
+        if self.mode.startswith("a"):
+            # POSIX append mode: every write goes to the end of the file, whatever seek() said
+            self.pos = len(self.disk.files[self.path])
         self.disk.write_at(self.path, self.pos, data)
         self.pos += len(data)
         return len(data)
@@ -243,9 +246,17 @@ class Seam(object):
         elif mode.startswith("r"):
             if path not in d.files:
                 raise IOError(errno.ENOENT, "No such file", path)
+            if "+" not in mode:
+                raise ValueError("read-only handles are not modelled: %r" % mode)
+        elif mode.startswith("a"):
+            if path not in d.files:
+                d.create(path, truncate=False)
         else:
             raise ValueError(mode)
-        return SimFile(d, path, mode)
+        f = SimFile(d, path, mode)
+        if mode.startswith("a"):
+            f.pos = len(d.files[path])
+        return f
 
     def install(self):
         if self.installed:
